@@ -33,6 +33,7 @@ type Plan struct {
 	NetDelayMs  int
 	WidenUs     int // sleep inside state machine calls
 	SnapEntries uint64
+	Overhead    uint64 // CompactionOverhead, 0 = default 5
 	SlowSnapMs  int // SaveSnapshot / PrepareSnapshot take this long
 	// event triggered power cut: host TrigHost loses power at the TrigK-th occurrence of
 	// TrigEvent ("" = none; "before-save" / "after-save" = SaveRaftState with content)
@@ -248,6 +249,9 @@ type cfgBox struct{ Config config.Config }
 func (p Plan) shardConfig(replica uint64) cfgBox {
 	c := ShardConfig(shardID, replica)
 	c.SnapshotEntries = p.SnapEntries
+	if p.Overhead > 0 {
+		c.CompactionOverhead = p.Overhead
+	}
 	c.PreVote = p.PreVote
 	c.Quiesce = p.Quiesce
 	return cfgBox{c}
@@ -308,6 +312,7 @@ func RunPlan(p Plan) *Result {
 	members := c.Members(voters)
 	for _, h := range c.Hosts {
 		h.Mon.OnSnapshotRecord = rec.SnapshotCreated
+		h.Mon.OnViolation = res.violate
 		if err := h.Start(); err != nil {
 			res.violate("harness-nodehost-start-failed", "%v", err)
 			return res
